@@ -15,6 +15,7 @@
 #include <cstring>
 #include <unistd.h>
 #include <csignal>
+#include <sys/mman.h>
 #include <sys/resource.h>
 
 static void
@@ -215,6 +216,88 @@ main (int argc, char **argv)
 	      std::cout << "E compile unknown\n";
 	    }
 	  emit_soft (cap);
+	  std::cout << "." << std::endl;
+	  continue;
+	}
+      if (cmd == "A")
+	{
+	  // C API contract: the query is handed over with an explicit length, no terminator, and
+	  // sits right before an inaccessible page.
+	  std::string hq;
+	  is >> hq;
+	  std::string q = unhex (hq);
+	  static char *page = nullptr;
+	  static size_t const PG = 1 << 16;
+	  if (page == nullptr)
+	    {
+	      page = (char *) mmap (nullptr, 2 * PG, PROT_READ | PROT_WRITE, MAP_PRIVATE | MAP_ANONYMOUS, -1, 0);
+	      mprotect (page + PG, PG, PROT_NONE);
+	    }
+	  cerr_capture cap;
+	  if (q.size () > PG)
+	    std::cout << "A skip\n";
+	  else
+	    {
+	      char *buf = page + PG - q.size ();
+	      memcpy (buf, q.data (), q.size ());
+	      static zw_vocabulary *voc = nullptr;
+	      zw_error *err = nullptr;
+	      if (voc == nullptr)
+		{
+		  voc = zw_vocabulary_init (&err);
+		  zw_vocabulary_add (voc, zw_vocabulary_core (&err), &err);
+		  zw_vocabulary_add (voc, zw_vocabulary_dwarf (&err), &err);
+		}
+	      err = nullptr;
+	      zw_query *zq = zw_query_parse_len (voc, buf, q.size (), &err);
+	      if ((zq == nullptr) != (err != nullptr))
+		std::cout << "A CONTRACT query=" << (zq != nullptr) << " err=" << (err != nullptr) << "\n";
+	      else if (zq == nullptr)
+		{
+		  char const *m = zw_error_message (err);
+		  if (m == nullptr || *m == 0)
+		    std::cout << "A CONTRACT empty-message\n";
+		  else
+		    std::cout << "A err " << hex (m) << "\n";
+		  zw_error_destroy (err);
+		}
+	      else
+		{
+		  // run it: failures must surface through zw_result_next returning false with an error
+		  zw_stack *in = zw_stack_init (&err);
+		  zw_result *res = zw_query_execute (zq, in, &err);
+		  long n = 0;
+		  std::string verdict = "A ok";
+		  while (res != nullptr)
+		    {
+		      zw_stack *out = nullptr;
+		      err = nullptr;
+		      bool ok = zw_result_next (res, &out, &err);
+		      if (ok != (err == nullptr))
+			{
+			  verdict = "A CONTRACT next";
+			  break;
+			}
+		      if (! ok)
+			{
+			  char const *m = zw_error_message (err);
+			  verdict = (m == nullptr || *m == 0) ? "A CONTRACT empty-message" : "A runerr";
+			  zw_error_destroy (err);
+			  break;
+			}
+		      if (out == nullptr)
+			break;
+		      zw_stack_destroy (out);
+		      if (++n > 200)
+			break;
+		    }
+		  std::cout << verdict << " " << n << "\n";
+		  if (res)
+		    zw_result_destroy (res);
+		  zw_stack_destroy (in);
+		  zw_query_destroy (zq);
+		}
+	    }
 	  std::cout << "." << std::endl;
 	  continue;
 	}
